@@ -63,6 +63,15 @@ Theorem slices_are_piecewise_H :
 Proof. exact piecewise_H. Qed.
 Print Assumptions slices_are_piecewise_H.
 
+(* a processor without any pulse (circuit that drives no pulse, with fixes/C06-empty-pulse-table.diff): no merged
+   grid, no coefficient matrix (the code returns a degenerate value), and NO time slice: the ordered product is
+   empty, i.e. the evolution is the identity.  Without the `tlist is None` guard (run_slices_v2) it is rejected. *)
+Theorem no_pulse_no_slices : forall tol,
+  get_full_tlist tol [] = None /\ get_full_coeffs tol [] = None /\
+  run_slices tol [] = Some [] /\ run_slices_v2 tol [] = None.
+Proof. exact no_pulse. Qed.
+Print Assumptions no_pulse_no_slices.
+
 (* the code as first found (v0) *)
 Theorem resample_v0_refuted :
   inputs_okb_v1 leak_tol leak_input = true /\
